@@ -1126,6 +1126,9 @@ mod client;
 mod data;
 mod error;
 
+#[cfg(emit_rs_emit_verif)]
+pub mod verif;
+
 pub use self::{client::*, error::*, internal_metrics::*};
 
 /**
